@@ -619,6 +619,11 @@ example : viewList (clone T1 eClassLast).1 = viewList eClassLast := by
     exact ⟨by decide, by decide⟩
   exact (clone_list_eq_iff T1 hr hc hs).mpr (Or.inr (by decide))
 
+/-- `created_list` on a concrete list: `class` given first is listed last, `spellcheck` is normalised -/
+example : GoodKeys [(classK, some "a  b".toList), ("spellcheck".toList, some "No".toList), (kFoo, none)] := ⟨by decide, by decide⟩
+example : viewList (mk T1 "div".toList false [(classK, some "a  b".toList), ("spellcheck".toList, some "No".toList), (kFoo, none)])
+    = [("spellcheck".toList, some strTrue), (kFoo, none), (classK, some "a b".toList)] := by decide
+
 example : BoolStr T1 "SpellCheck".toList := ⟨by decide, by decide, by decide⟩
 /-- `setAttribute('spellcheck', 'YES')` stores `'true'`, `'0'` stores `'false'` -/
 example : viewList (setAttribute T1 "spellcheck".toList (some "YES".toList) (mk T1 "div".toList false [])).2
